@@ -242,3 +242,67 @@ def wake_contract(case, lines):
             return (f"future {op.split()[1]} was Pending, became ready ({nl[:60]}) but its waker was never woken: "
                     "on an executor this call hangs (lost wake-up)")
     return None
+
+
+# --------------------------------------------------------------------------- reconnect under a registered identity
+FQ_PEER = {"PULL": "PUSH", "SUB": "PUB", "DEALER": "ROUTER", "ROUTER": "DEALER", "REP": "REQ", "XPUB": "SUB"}
+
+
+def reconnect_parked_cases():
+    """A peer connects again under an identity that is STILL registered (the socket has not noticed the old
+    connection's end yet, or the old connection is simply still there) while a recv is parked on the old stream:
+    the new connection's stream must be polled — the pending recv is woken and the message sent on the new
+    connection is delivered, once."""
+    out = []
+    n = 0
+    for t, pt in FQ_PEER.items():
+        good = {"REP": [b"", b"hello"], "XPUB": [b"\x01topic"]}.get(t, [b"hello"])
+        for served_before in (False, True):
+            for old_end in ("open", "eof"):
+                for msg_first in (False, True):
+                    sc = Script()
+                    sc.sock(1, t)
+                    sc.attach(1, 1, pt, b"same")
+                    if served_before:
+                        sc.reveal_msg(1, good)
+                        sc.recv_once(1)
+                    f = sc.fut()
+                    sc.add(f"recv {f} 1", f"poll {f}")              # parks on the old stream
+                    if old_end == "eof" and not served_before:
+                        pass
+                    g = sc.fut()
+                    stream = G + zmtp.ready(pt, b"same")
+                    if msg_first:
+                        stream += zmtp.message(good)
+                    sc.add(f"attach {g} 1 2", f"reveal 2 {hx(stream)}", f"poll {g}", f"woken {f}")
+                    if old_end == "eof":
+                        sc.add("eof 1")
+                    if not msg_first:
+                        sc.reveal_msg(2, good)
+                    sc.add(f"poll {f}", f"poll {f}", "halves 1", "halves 2")
+                    c = sc.case(f"reconnect-parked-{t}#{n}", ["reconnect-parked"])
+                    want = {"REP": [b"hello"], "ROUTER": [b"same", b"hello"]}.get(t, good)
+                    c.expect = ("reconnect-parked", f, want)
+                    out.append(c)
+                    n += 1
+    return out
+
+
+def reconnect_parked_oracle(case, lines):
+    if any(l.startswith(("PANIC", "ABORT", "TIMEOUT")) for l in lines):
+        return "panic/abort"
+    _, f, good = case.expect
+    res = list(zip(case.ops, lines[1:]))
+    wk = [l for op, l in res if op == f"woken {f}"]
+    polls = [l for op, l in res if op == f"poll {f}"]
+    got = [l for l in polls if l.startswith("ready ok M[")]
+    if wk and wk[0] == "woken no" and not got:
+        return ("a recv was parked; a peer connected under the identity of a still-registered connection and sent a message: "
+                f"the receiver was not woken and the message is never delivered (polls: {polls})")
+    if not got:
+        return f"the message sent on the new connection of a re-registered identity is never delivered: {polls}"
+    if not got[0].endswith(show_frames(good) + "]"):
+        return f"recv returned {got[0]} — not the message sent on the new connection ({show_frames(good)})"
+    if wk and wk[0] == "woken no":
+        return "the pending recv was not woken when a connection was registered (lost wake-up; a re-poll found the message)"
+    return None
